@@ -408,11 +408,12 @@ def mon_finite(trace, prop="C20"):
 
 
 def fast_overproduction(scn):
-    """Region of the open finding: base class, capacity-weighted orders and an overproduction
-    response of at least the size of the scarcity itself within one step."""
+    """Region of the open finding: capacity-weighted orders and an overproduction response of at
+    least the size of the scarcity itself within one step (either model class: first seen on the base
+    class with steps of one temporal unit, then on the psi class with a step longer than alpha_tau)."""
     m = scn["model"]
     gain = (m.get("alpha_max", 1.25) - m.get("alpha_base", 1.0)) * m.get("dt", 1) / m.get("alpha_tau", 365)
-    return m.get("class", "psi") == "base" and m.get("order_type", "alt") == "alt" and gain >= 0.9
+    return m.get("order_type", "alt") == "alt" and gain >= 0.9
 
 
 def mon_c01(trace):
